@@ -115,7 +115,7 @@ Proof.
   revert ms. induction keys as [|k t IH]; simpl; intros ms H.
   - injection H as <-. split; [reflexivity|]. intros w [].
   - binv H. binv H. injection H as <-. destruct (IH a0 Ha0) as [Hl Hs]. split; [simpl; now rewrite Hl|].
-    intros w [<-|Hin]; [|auto]. destruct (py_truthy (get k c)).
+    intros w [<-|Hin]; [|auto]. destruct (metric_given (get k c)).
     + apply set_thresholds_shape_nested in Ha. destruct Ha as [_ [rows [-> [_ Hr]]]]. exists rows. auto.
     + injection Ha as <-. exists []. split; [reflexivity|]. intros r [].
 Qed.
